@@ -20,7 +20,20 @@ def gen_e2e(ctx):
                         yield eline(c, ops)
     ctx["scopes"].append("real-socket uploads (plain, TLS 1.2, TLS 1.3) x four methods x both types x resumption on / off x sizes 0..100000; the peer reports whether it saw the TLS close-notify")
 
+def gen_conc(ctx):
+    """several clients of one process transferring at the same time, each against its own scripted server (h_conc)"""
+    rng = ctx["rng"]
+    for rep in range(3 if ctx.get("tier") != "thorough" else 30):
+        for t in ("I", "A"):
+            for mode in "pa":
+                for n in (2, 3, 4):
+                    sizes = [rng.choice([8192, 20000, 65536, 100000, 300000]) if t == "I" else rng.choice([3000, 8192, 20000, 50000]) for _ in range(n)]
+                    yield "conc %s %s %s %s" % ("ul", t, mode, ",".join("%d.%d" % (rng.below(100000), z) for z in sizes))
+    ctx["scopes"].append("2-4 clients of one process transferring concurrently (both types, passive / active), each against its own server")
+
+
 PROP = {"id": "C04", "stages": [{"name": "client", "target": "h_client", "gen": gen_c04, "shard": 12},
-                   {"name": "e2e", "target": "h_e2e", "gen": gen_e2e, "shard": 4}], "trivial_tags": [],
+                   {"name": "e2e", "target": "h_e2e", "gen": gen_e2e, "shard": 4},
+                   {"name": "conc", "target": "h_conc", "gen": gen_conc, "shard": 6}], "trivial_tags": [],
         "rule": 'binary uploads STOR/STOU/APPE: payload sizes around the 8192-byte block x four methods x IPv4/IPv6 x source chop patterns (1 byte .. full block); bytes and end-of-file seen by the peer, order of data-socket close vs. completion read from libc interposition. distinct = distinct scenario lines.',
         "assumptions": ["in-memory control transport (a socket_base subclass) stands in for the TCP control socket; data connections are real loopback TCP", "oracle values (read sizes, kernel-chosen ports, connect results) are taken from the implementation run"]}
